@@ -286,6 +286,10 @@ M("c11-f1-inverse", "C11", "_event.py", "C11.R1", "bound-signal table keyed by t
   ('T_Event = TypeVar("T_Event", bound="Event")\n', 'T_Event = TypeVar("T_Event", bound="Event")\nbound_signals = WeakKeyDictionary[Hashable, "Signal[Any]"]()\n'),
   ("            return self._bound_signals[instance]\n", "            return bound_signals[instance]\n"),
   ("            self._bound_signals[instance] = bound_signal\n", "            bound_signals[instance] = bound_signal\n"))
+M("c11-key-id-via-local", "C11", "_event.py", "C11.R1", "cache keyed by id(instance) held in a local",
+  ("            return self._bound_signals[instance]\n", "            return self._bound_signals[key]\n"),
+  ("            self._bound_signals[instance] = bound_signal\n", "            self._bound_signals[key] = bound_signal\n"),
+  ("        if instance is None:\n            return self\n", "        if instance is None:\n            return self\n\n        key = id(instance)\n"))
 M("c11-key-by-class", "C11", "_event.py", "C11.R1", "cache keyed by the owner class: instances share channels",
   ("            return self._bound_signals[instance]\n", "            return self._bound_signals[owner]\n"),
   ("            self._bound_signals[instance] = bound_signal\n", "            self._bound_signals[owner] = bound_signal\n"))
@@ -536,6 +540,8 @@ T("c02-twin-dict-copy", "C02", "_context.py", "dict(...) instead of .copy()",
   ("self._parent._resource_factories.copy()", "dict(self._parent._resource_factories)"))
 
 # =============================================================================== C12
+M("c12-skip-closed-ancestors", "C12", "_context.py", "C12.R4", "the constructor walks past parents whose teardown has begun: contexts created in teardown callbacks get the wrong parent",
+  ("        self._parent = parent or _current_context.get(None)\n", "        self._parent = parent or _current_context.get(None)\n        while self._parent is not None and self._parent.closed:\n            self._parent = self._parent._parent\n"))
 M("c12-set-parent-on-exit", "C12", "_context.py", "C12.R2", "on exit the parent is installed instead of resetting the token",
   ("                exit_stack.callback(_current_context.reset, _reset_token)\n", "                exit_stack.callback(_current_context.set, self._parent)\n"))
 M("c12-no-restore", "C12", "_context.py", "C12.R2", "the previous context is never restored",
@@ -572,6 +578,12 @@ for _op, _old, _new in (
     ("aenter", "        self._ensure_state(ContextState.inactive)\n", "        self._ensure_state(ContextState.inactive, ContextState.closed)\n"),
 ):
     M(f"c13-cell-{_op}", "C13", "_context.py", "C13.R1", f"guard of {_op} allows / rejects another state", (_old, _new))
+M("c13-extra-closed-gate", "C13", "_context.py", "C13.R6", "async get_resource refuses to bind a generated resource once `closed` is true (it is true during teardown)",
+  ("            if isawaitable(generated_resource):\n                generated_resource = await generated_resource\n",
+   "            if isawaitable(generated_resource):\n                generated_resource = await generated_resource\n                if self.closed:\n                    raise RuntimeError(\"this context has already been closed\")\n"))
+T("c13-twin-closed-read-no-gate", "C13", "_context.py", "`closed` is read for a log message, not to refuse the call",
+  ("            if isawaitable(generated_resource):\n                generated_resource = await generated_resource\n",
+   "            if isawaitable(generated_resource):\n                generated_resource = await generated_resource\n                if self.closed:\n                    logger.debug(\"resource generated during teardown\")\n"))
 M("c13-get-resource-unguarded", "C13", "_context.py", "C13.R1", "async get_resource has no guard",
   ("        self._ensure_state(ContextState.open, ContextState.closing)\n\n        # First check if there's already a matching resource in this context\n        key = (type, name)", "        # First check if there's already a matching resource in this context\n        key = (type, name)"))
 M("c13-guard-after-effect", "C13", "_context.py", "C13.R1", "add_teardown_callback guards after appending",
